@@ -760,6 +760,32 @@ class CExec:
             return self.api.call("Py_TYPE", [base], st, k)
         return k(self.field_array(st, name)[base], st)
 
+    def store_field(self, base, fname, v, st2, k):
+        st2 = self.cx.require(st2, base != NULL, "valid-deref:store->%s" % fname)
+        st2 = self.api.live(st2, base, "store->" + fname)
+        arr = self.field_array(st2, fname)
+        srt = FIELD_SORTS[fname]
+        val = v
+        if isinstance(val, FnRef):
+            val = z3.IntVal(self.cx.fn_id(val.name))
+        if srt == BV32 and z3.is_int(val):
+            val = z3.Int2BV(val, 32)
+        if srt == INT:
+            val = as_int(val)
+        st3 = st2
+        if fname in OWNING_FIELDS and st2.own is not None:
+            old = arr[base]
+            own = st2.own
+            # the field's reference moves to the function (old value) and the function's to the field (new value)
+            own = self.api.own_add(own, old, 1)
+            own = self.api.own_add(own, val, -1)
+            st3 = st2.with_own(own)
+            if z3.is_expr(val):
+                st3 = st3.gset("kept_by_field", st3.ghost.get("kept_by_field", ()) + (val,))
+        st3 = st3.with_mem(fname, z3.Store(arr, base, val))
+        st3 = st3.log(("store", fname, base, val))
+        return k(val, st3)
+
     def store(self, lhs, v, st, k):
         t = strip(lhs)
         kd = t.get("kind")
@@ -772,37 +798,13 @@ class CExec:
             return k(v2, st.set(name, v2))
         if kd == "MemberExpr":
             fname = t["name"]
-
-            def k1(base, st2):
-                st2 = self.cx.require(st2, base != NULL, "valid-deref:store->%s" % fname)
-                st2 = self.api.live(st2, base, "store->" + fname)
-                arr = self.field_array(st2, fname)
-                srt = FIELD_SORTS[fname]
-                val = v
-                if isinstance(val, FnRef):
-                    val = z3.IntVal(self.cx.fn_id(val.name))
-                if srt == BV32 and z3.is_int(val):
-                    val = z3.Int2BV(val, 32)
-                if srt == INT:
-                    val = as_int(val)
-                st3 = st2
-                if fname in OWNING_FIELDS and st2.own is not None:
-                    old = arr[base]
-                    own = st2.own
-                    # the field's reference moves to the function (old value) and the function's to the field (new value)
-                    own = z3.If(old != NULL, z3.Store(own, old, own[old] + 1), own)
-                    own = z3.If(val != NULL, z3.Store(own, val, own[val] - 1), own)
-                    st3 = st2.with_own(own)
-                    if z3.is_expr(val):
-                        st3 = st3.gset("kept_by_field", st3.ghost.get("kept_by_field", ()) + (val,))
-                st3 = st3.with_mem(fname, z3.Store(arr, base, val))
-                st3 = st3.log(("store", fname, base, val))
-                return k(val, st3)
-            return self.ev(t["inner"][0], st, k1)
+            return self.ev(t["inner"][0], st, lambda base, st2: self.store_field(base, fname, v, st2, k))
         if kd == "UnaryOperator" and t.get("opcode") == "*":
             def k2(p, st2):
                 if isinstance(p, Ptr) and p.kind == "local":
                     return k(v, st2.set(p.a, v))
+                if isinstance(p, Ptr) and p.kind == "field":
+                    return self.store_field(p.a, p.b, v, st2, k)
                 raise Unsupported("store through pointer")
             return self.ev(t["inner"][0], st, k2)
         raise Unsupported("assignment to %s" % kd)
